@@ -364,6 +364,7 @@ class Specs:
         dec = kw.get('decreases')
         l = Lemma(node.name, node, self._params(node), dec if dec is None else ast.literal_eval(dec))
         l.props = ast.literal_eval(kw['props']) if 'props' in kw else []
+        l.options = {k: ast.literal_eval(v) for k, v in kw.items() if k not in ('props', 'decreases')}
         for st in ast.walk(node):
             if isinstance(st, ast.Expr) and isinstance(st.value, ast.Call) and isinstance(st.value.func, ast.Name):
                 if st.value.func.id == 'requires':
